@@ -247,10 +247,16 @@ def numpy_fn(I, n, args, kw, st, node):
         # insertion point in a sorted array = number of elements < x (left) / <= x (right)
         return I.count_mask(MaskV(a, "<" if side == "left" else "<=", x), st, node)
     if n == "clip":
-        x, lo, hi = args[0], args[1], args[2]
+        x = args[0]
+        lo = args[1] if len(args) > 1 else kw.get("a_min", kw.get("min"))
+        hi = args[2] if len(args) > 2 else kw.get("a_max", kw.get("max"))
         if I.arr(st, x) is not None:
             raise ToolLimit("np.clip on an array")
-        return V.v_min(V.v_max(x, lo), hi)
+        if lo is not None:
+            x = V.v_max(x, lo)
+        if hi is not None:
+            x = V.v_min(x, hi)
+        return x
     if n in ("abs", "absolute", "fabs"):
         return V.v_abs(args[0])
     if n == "where" and len(args) == 3 and I.arr(st, args[1]) is None and I.arr(st, args[2]) is None and not isinstance(args[0], MaskV):
@@ -352,6 +358,20 @@ def repo_call(I, name, args, kw, st, node):
         return modular_call(I, c, args, kw, st, node)
     if fname in inline or I.ctx.contract.options.get("inline_all"):
         return inline_call(I, rel, fname, args, kw, st, node)
+    if rel == I.ctx.relpath and fname != I.ctx.contract.name.split("#")[0]:
+        # a helper defined in the SAME file as the function under contract and without a contract of its own (typically a private helper
+        # factored out of the function): its body is part of the code under verification and is inlined (recorded in the evidence)
+        note = "same-file helper %s() has no contract: inlined into %s" % (fname, I.ctx.contract.name)
+        if note not in I.ctx.tool_notes:
+            I.ctx.tool_notes.append(note)
+        depth = I.ctx.__dict__.get("auto_inline_depth", 0)
+        if depth >= 3:
+            raise ToolLimit("call to %s (%s): nested automatic inlining deeper than 3" % (fname, rel))
+        I.ctx.auto_inline_depth = depth + 1
+        try:
+            return inline_call(I, rel, fname, args, kw, st, node)
+        finally:
+            I.ctx.auto_inline_depth = depth
     raise ToolLimit("call to %s (%s): no contract and not declared inline" % (fname, rel))
 
 
